@@ -8,6 +8,10 @@ import Mathlib.LinearAlgebra.Span.Basic
 import Mathlib.Tactic.Ring
 import Mathlib.Tactic.Linarith
 import Mathlib.Tactic.FieldSimp
+import Mathlib.Tactic.Positivity
+import Mathlib.Algebra.Order.Field.Rat
+import Mathlib.Algebra.Order.Floor.Ring
+import Mathlib.Data.Rat.Floor
 
 /-!
 # Helper lemmas for C09
@@ -328,5 +332,84 @@ theorem mem_modeExps {order j k : ℕ} (h : j + k < order / 2) : (j, k) ∈ mode
   refine ⟨j + k, List.mem_range.2 h, ?_⟩
   rw [List.mem_map]
   exact ⟨j, List.mem_range.2 (by omega), by simp⟩
+
+/-! ## multi-scale bookkeeping -/
+
+theorem rat_floor_eq (a : ℚ) : a.floor = ⌊a⌋ := rfl
+
+theorem levelSearch_spec (half s : ℚ) : ∀ (fuel k0 : ℕ),
+    levelSearch half s fuel k0 (s ^ k0) < k0 + fuel →
+    half ≤ s ^ (levelSearch half s fuel k0 (s ^ k0)) ∧
+    ∀ j, k0 ≤ j → j < levelSearch half s fuel k0 (s ^ k0) → s ^ j < half := by
+  intro fuel
+  induction fuel with
+  | zero => intro k0 h; simp [levelSearch] at h
+  | succ f ih =>
+    intro k0 h
+    unfold levelSearch at h ⊢
+    by_cases hc : half ≤ s ^ k0
+    · rw [if_pos hc] at h ⊢
+      exact ⟨hc, fun j h1 h2 => absurd h2 (by omega)⟩
+    · rw [if_neg hc] at h ⊢
+      rw [← pow_succ] at h ⊢
+      obtain ⟨h1, h2⟩ := ih (k0 + 1) (by omega)
+      refine ⟨h1, fun j hj1 hj2 => ?_⟩
+      rcases Nat.eq_or_lt_of_le hj1 with rfl | hlt
+      · exact lt_of_not_ge hc
+      · exact h2 j hlt hj2
+
+/-- floor of a natural plus one half -/
+theorem floor_nat_add_half (L : ℕ) : ((L : ℚ) + 1 / 2).floor.toNat = L := by
+  rw [rat_floor_eq]
+  have : ⌊(L : ℚ) + 1 / 2⌋ = (L : ℤ) := by
+    rw [Int.floor_eq_iff]; constructor <;> push_cast <;> linarith
+  rw [this]; simp
+
+theorem floor_natCast' (L : ℕ) : ((L : ℚ)).floor.toNat = L := by
+  rw [rat_floor_eq]; simp
+
+theorem qLevel_pos (s : ℚ) (hs : 0 < s) (i : ℕ) : 0 < qLevel s i := by
+  unfold qLevel; positivity
+
+theorem dimsLevel_succ (p : MSParams) (i : ℕ) (hs : 0 < p.s) :
+    dimsLevel p (i + 1) = (levelPix p, levelPix p) := by
+  have hq := (qLevel_pos p.s hs (i + 1)).ne'
+  have key : 2 * (((levelPix p : ℚ) + 1 / 2) / (2 * qLevel p.s (i + 1))) * qLevel p.s (i + 1)
+      = (levelPix p : ℚ) + 1 / 2 := by field_simp
+  unfold dimsLevel numAiry
+  simp only [key, floor_nat_add_half]
+
+theorem dimsLevel_zero (p : MSParams) : dimsLevel p 0 = (2 * p.ny, 2 * p.nx) := by
+  unfold dimsLevel numAiry qLevel
+  have h1 : 2 * ((p.ny : ℚ) / 2) * (2 * p.s ^ 0) = ((2 * p.ny : ℕ) : ℚ) := by push_cast; ring
+  have h2 : 2 * ((p.nx : ℚ) / 2) * (2 * p.s ^ 0) = ((2 * p.nx : ℕ) : ℚ) := by push_cast; ring
+  simp only [h1, h2, floor_natCast']
+
+theorem padWindow_square (d w : ℕ) (hw : 2 ≤ w) :
+    padWindow (d, d) w =
+      if w ≤ d ∧ (d - w) % 2 = 0 then .ok ((d - w) / 2) ((d - w) / 2) else .raises := by
+  unfold padWindow
+  by_cases hwd : w ≤ d
+  · have hb : ((d : ℤ) - w) / 2 = (((d - w) / 2 : ℕ) : ℤ) := by omega
+    simp only [hb]
+    have hnn : ¬ ((((d - w) / 2 : ℕ) : ℤ) < 0 ∨ (((d - w) / 2 : ℕ) : ℤ) < 0) := by omega
+    simp only [hnn, if_false, Int.toNat_natCast]
+    by_cases hev : (d - w) % 2 = 0
+    · have htot : w + (d - w) / 2 + (d - w) / 2 = d := by omega
+      simp [htot, hwd, hev]
+    · have htot : w + (d - w) / 2 + (d - w) / 2 = d - 1 := by omega
+      have hd : 0 < d := by omega
+      have h1 : ¬ ((d - 1) * (d - 1) = d * d) := by
+        intro h
+        have := Nat.mul_self_inj.1 h
+        omega
+      have h2 : ¬ ((d - 1) * (d - 1) = 1) := by
+        intro h
+        have : (d - 1) * (d - 1) = 1 * 1 := by simpa using h
+        have := Nat.mul_self_inj.1 this
+        omega
+      simp [htot, hwd, hev, h1, h2]
+  · have hb : ((d : ℤ) - w) / 2 < 0 := by omega
+    simp [hb, hwd]
 
 end HcipyVerif.Coronagraph
